@@ -127,3 +127,11 @@ Proof.
   intros. unfold src_ts_time_delays, s1, s2, ts_source_of_beams. cbv zeta. cbn [sig_wp idl_wp sig_time idl_time].
   rewrite !kin_transit_time_on by assumption. unfold light_c, light_speed, Ts1, Ti1, Ts2, Ti2. reflexivity.
 Qed.
+
+Print Assumptions kin_crystal_phase_velocity.
+Print Assumptions kin_crystal_group_positive.
+Print Assumptions F14_counts_correction_generated.
+Print Assumptions F14_counts_ratio_generated.
+Print Assumptions kin_hom_time_delay.
+Print Assumptions kin_hom_time_delay_degenerate.
+Print Assumptions kin_ts_time_delays.
